@@ -386,10 +386,11 @@ class Advisory:
             routerid: RouterID | None = None,
         ) -> None:
             # Handle both string and bytes input
-            if isinstance(advisory, bytes):
-                utf8 = advisory
-            else:
+            if isinstance(advisory, str):
                 utf8 = advisory.encode('utf-8')
+            else:
+                # bytes, or the memoryview slice the decoder hands over
+                utf8 = bytes(advisory)
             if len(utf8) > MAX_ADVISORY:
                 utf8 = utf8[: MAX_ADVISORY - 3] + b'...'
             Advisory._Advisory.__init__(self, Operational.CODE.ADM, afi, safi, utf8)
@@ -407,10 +408,11 @@ class Advisory:
             routerid: RouterID | None = None,
         ) -> None:
             # Handle both string and bytes input
-            if isinstance(advisory, bytes):
-                utf8 = advisory
-            else:
+            if isinstance(advisory, str):
                 utf8 = advisory.encode('utf-8')
+            else:
+                # bytes, or the memoryview slice the decoder hands over
+                utf8 = bytes(advisory)
             if len(utf8) > MAX_ADVISORY:
                 utf8 = utf8[: MAX_ADVISORY - 3] + b'...'
             Advisory._Advisory.__init__(self, Operational.CODE.ASM, afi, safi, utf8)
